@@ -27,7 +27,7 @@ Theorem C02_range_without_offset_differs : forall a b, (a < b)%nat -> lang_range
 Proof. exact range_without_offset_differs. Qed.
 Print Assumptions C02_range_without_offset_differs.
 
-(* the mixin's "a:b" string path (parse with start 0, then format) is the tuple rule *)
+(* the mixin's "a:b" string path (parse with start 0, then format) is the tuple rule  [audit: a restatement of the definition, n + 0 = n] *)
 Theorem C02_str_range : forall start a b, process_str_range start a b = render_range start a b.
 Proof. exact process_str_range_ok. Qed.
 Print Assumptions C02_str_range.
@@ -204,12 +204,15 @@ Theorem C02_sigmoid_at_0 : forall (E : Qc -> Qc), E 0 = 1 -> sigmoid_base E 0 = 
 Proof. exact sigmoid_at_0. Qed.
 Print Assumptions C02_sigmoid_at_0.
 
+(* [audit: restates the definition of sigmoid_fortran_vec; the Fortran helper text itself is tied by the tolerance stream only] *)
 Theorem C02_sigmoid_fortran_elementwise : forall (E : Qc -> Qc) xs, sigmoid_fortran_vec E xs = map (sigmoid_base E) xs.
 Proof. exact sigmoid_fortran_elementwise. Qed.
 Print Assumptions C02_sigmoid_fortran_elementwise.
 
 (* ------------------------------------------------------------------------------------------------ (vi) named constants *)
-(* `pi` denotes the same float64 on every backend: full since fix D108 (Fortran PI = 4.0d0*atan(1.0d0); switch fixed_fortran_pi = true) *)
+(* NOTE (audit): C02_pi_full and C02_pi_partial below only restate the model's constant table (closed by computation): that `pi` / `E`
+   are the same float64 on every REAL backend is decided by the correspondence stream `consts` (bit-for-bit comparison) and by the revert
+   tests of D108 / D111, not by a theorem.  They are kept as consistency records of the switch fixed_fortran_pi = true. *)
 Definition C02_pi_full_statement : Prop := forall b, backend_pi b = pi_f64.
 
 Theorem C02_pi_full : forall b, backend_pi b = pi_f64.
@@ -220,8 +223,8 @@ Theorem C02_pi_partial : forall b, fortran_pi_free b true = true -> backend_pi b
 Proof. exact backend_pi_partial. Qed.
 Print Assumptions C02_pi_partial.
 
-(* before fix D108 (switch value false) the Fortran module constant was float32(pi) = 13176795/4194304 *)
-Theorem C02_pi_fortran_refuted_before_fix : fixed_fortran_pi = false -> backend_pi BFortran <> pi_f64.
+(* before fix D108: stated over the explicit switch argument `false` (a real computation, not a hypothesis about the switch) *)
+Theorem C02_pi_fortran_refuted_before_fix : backend_pi_gen false BFortran = pi_f32 /\ backend_pi_gen false BFortran <> pi_f64.
 Proof. exact backend_pi_fortran_before_fix. Qed.
 Print Assumptions C02_pi_fortran_refuted_before_fix.
 
